@@ -14,7 +14,7 @@
    leader-completeness invariants of a repaired protocol.  What is machine-checked is the refutation, split by
    cause; `classes h` = (double vote, stale vote counted, ack from diverged log, old-term commit, ack below voted term). *)
 From Coq Require Import NArith List.
-From Agdb Require Import Raft RaftWitness RaftProofs RaftLog RaftLogProofs.
+From Agdb Require Import Raft RaftWitness RaftProofs RaftLog RaftLogProofs RaftLogMatch RaftLogLC.
 Import ListNotations.
 Open Scope N_scope.
 
@@ -68,3 +68,72 @@ Theorem C29_two_classes_not_enough : forall rv,
        leader_completeness (c_hist (run rv size evs))).
 Proof. exact two_classes_not_enough_C29. Qed.
 Print Assumptions C29_two_classes_not_enough.
+
+(* ------------------------------------------------------------------ the CONDITIONAL THEOREM
+   PROVED for the repaired election code (rr_fixed = the code in /repo), every cluster size other than 1 and every
+   adversarial event list (proof: RaftLogWf.v, RaftLogMatch.v, RaftLogHand.v, RaftLogLC.v — log matching, then the
+   inductive invariant LC; C27_election_safety and the election invariants J, K are used at every step):
+
+   if none of the THREE log-replication classes occurs in the run
+        ack-from-diverged-log   ack_diverged_b (c_hist ..) = false
+        old-term-commit         old_term_commit_b (c_hist ..) = false
+        commit-without-quorum   commit_noquorum_b rr_fixed size evs = false
+   then an entry committed by a leader of term t is in the log of every node that becomes leader later FOR A HIGHER
+   TERM (Raft's Leader Completeness).  So these three classes are the only ways raft.rs (with the C27 repairs)
+   can lose a leader-committed entry to a leader of a higher term. *)
+Theorem C29_partial : forall size evs,
+  size <> 1 ->
+  ack_diverged_b (c_hist (run rr_fixed size evs)) = false ->
+  old_term_commit_b (c_hist (run rr_fixed size evs)) = false ->
+  commit_noquorum_b rr_fixed size evs = false ->
+  forall h1 h2 i t idx e j t' log,
+    c_hist (run rr_fixed size evs) = h1 ++ GCommit i true t idx e :: h2 -> In (GLeader j t' log) h2 -> t < t' ->
+    log_at log idx = e.
+Proof.
+  intros size evs Hs A O Q. apply (RaftLogLC.leader_completeness_up_partial size evs Hs). constructor; auto.
+Qed.
+Print Assumptions C29_partial.
+
+(* The LITERAL full statement (`leader_completeness`: EVERY later GLeader, whatever its term) needs one more
+   hypothesis, which excludes a situation that is NOT a defect: a stale candidate of an older term collects its
+   delayed votes and becomes Leader of that older term after the commit (it cannot commit anything: every member of
+   a quorum has a higher term).  `late_leader_b h` = some GLeader of a term <= t follows a leader's commit of term t. *)
+Theorem C29_partial_literal : forall size evs,
+  size <> 1 ->
+  ack_diverged_b (c_hist (run rr_fixed size evs)) = false ->
+  old_term_commit_b (c_hist (run rr_fixed size evs)) = false ->
+  commit_noquorum_b rr_fixed size evs = false ->
+  RaftLogLC.late_leader_b (c_hist (run rr_fixed size evs)) = false ->
+  leader_completeness (c_hist (run rr_fixed size evs)).
+Proof.
+  intros size evs Hs A O Q L. apply (RaftLogLC.leader_completeness_partial size evs Hs); auto. constructor; auto.
+Qed.
+Print Assumptions C29_partial_literal.
+
+(* and that hypothesis cannot be dropped: a 3-node history without any of the six classes in which node 1 becomes
+   Leader of term 1 after node 0 (term 2) has committed — the literal statement of C29 is stronger than Raft's
+   property and fails in a history that is harmless *)
+Theorem C29_literal_refuted_by_late_leader :
+  exists size evs, size <> 1 /\
+    ack_diverged_b (c_hist (run rr_fixed size evs)) = false /\
+    old_term_commit_b (c_hist (run rr_fixed size evs)) = false /\
+    commit_noquorum_b rr_fixed size evs = false /\
+    ~ leader_completeness (c_hist (run rr_fixed size evs)).
+Proof.
+  destruct RaftLogLC.late_leader_refutes_literal_C29 as (size & evs & Hs & [A O Q] & N).
+  exists size, evs. auto.
+Qed.
+Print Assumptions C29_literal_refuted_by_late_leader.
+
+(* non-vacuity: the fault-free 3-node history `wlog_ok` (node 0 elected, two entries replicated to and committed on
+   all three nodes, leader commits recorded) satisfies every hypothesis *)
+Example C29_partial_nonvacuous :
+  (ack_diverged_b (c_hist (run rr_fixed 3 RaftLogMatch.wlog_ok)) = false /\
+   old_term_commit_b (c_hist (run rr_fixed 3 RaftLogMatch.wlog_ok)) = false /\
+   commit_noquorum_b rr_fixed 3 RaftLogMatch.wlog_ok = false) /\
+  RaftLogLC.late_leader_b (c_hist (run rr_fixed 3 RaftLogMatch.wlog_ok)) = false /\
+  leader_completeness_b (c_hist (run rr_fixed 3 RaftLogMatch.wlog_ok)) = true /\
+  existsb (fun g => match g with GCommit _ true _ _ _ => true | _ => false end)
+          (c_hist (run rr_fixed 3 RaftLogMatch.wlog_ok)) = true.
+Proof. destruct RaftLogLC.wlog_ok_hyps as ([A O Q] & R). split; auto. Qed.
+Print Assumptions C29_partial_nonvacuous.
